@@ -124,7 +124,7 @@ def run(ctx, driver):
         if res["a_ok"] != res["b_ok"]:
             ctx.fail("success-depends-on-presentation", {"indict": case["indict"], "twin": case["twin"]},
                      {"original": "ok" if res["a_ok"] else res["a_err"] + ": " + str(res["a_msg"]), "twin": "ok" if res["b_ok"] else res["b_err"] + ": " + str(res["b_msg"]),
-                      "signature": dict(sig, what="success")})
+                      "signature": dict(sig, what="success", error=res["a_err"] or res["b_err"], site=res.get("a_site") or res.get("b_site"))})
             continue
         if not res["a_ok"]:
             ctx.count("both_fail:" + str(res["a_err"]))
